@@ -8,6 +8,7 @@ import Hive.Proofs.AdsId
 import Hive.Proofs.AdsTyped
 import Hive.Model.AdsFault
 import Hive.Proofs.AdsAdapter
+import Hive.Proofs.AdsStack
 import Hive.Gen.C09_Skel
 import Hive.Gen.C09_Consts
 /-!
@@ -1062,6 +1063,45 @@ example : let cd : KVCodec (List UInt8) (List UInt8) :=
         venc := fun v => some (0x56 :: v), vdec := fun b => match b with | 0x56 :: v => some (v, b.length) | _ => none }
     KeyRT cd ∧ ValRT cd := by
   refine ⟨?_, ?_⟩ <;> intro a b h <;> simp at h <;> subst h <;> rfl
+
+/-- **The whole stack, for any round-tripping serializers**: typed calls encoded by arbitrary round-tripping key /
+value serializers, run on the instance whose root cell goes through an arbitrary round-tripping identifier
+serializer pair (`Commit`s whose encoder fails are no-ops), answer `Get` / `Has` / `Delete` exactly as the plain typed
+map `K → Option V` of the history; the invariant of the root cell holds (no dangling import).  Reopens at commit
+points of the history without the failed `Commit`s. -/
+theorem C09_stack_refines {B : Type} [DecidableEq K] (c : Cfg R) (ic : IdCodec R B) (same : R → R → Bool)
+    (cd : KVCodec K V) (hid : RoundTrip ic) (hs : LawfulSame same) (hk : KeyRT cd) (hv : ValRT cd)
+    (ops : List (TyOp K V))
+    (hc : CleanFrom { c with dec := cd.dec } init
+      (dropFailed { c with dec := cd.dec } ic same ISt.init (ops.map (encOp cd))))
+    (k : K) (kb : Key) (hkb : cd.kenc k = some kb) :
+    let st := sfinal c ic same cd ops
+    IdInv ic st ∧
+    (tstep c cd st.s (.get k)).2 = (match tspec cd ops k with | none => .out .notfound | some v => .found v) ∧
+    (tstep c cd st.s (.has k)).2 = .out (.bool (tspec cd ops k).isSome) ∧
+    (tstep c cd st.s (.del k)).2 = .out (.deleted (tspec cd ops k).isSome) :=
+  stack_refines c ic same cd hid hs hk hv ops hc k kb hkb
+
+/-- The hypotheses of `C09_stack_refines` are satisfiable with non-identity stored forms and a failing encoder: tag-byte
+key / value serializers, an identifier serializer that stores `r + 1` and refuses `r = 1`, a history with a failed
+`Commit`, a successful one and a reopen. -/
+example :
+    let cd : KVCodec (List UInt8) (List UInt8) :=
+      { kenc := fun k => some (0x4B :: k), kdec := fun b => match b with | 0x4B :: k => some k | _ => none,
+        venc := fun v => some (0x56 :: v), vdec := fun b => match b with | 0x56 :: v => some (v, b.length) | _ => none }
+    let ic : IdCodec Nat Nat := { enc := fun r => if r = 1 then none else some (r + 1), dec := fun b => some (b - 1) }
+    let c : Cfg Nat := { rootOf := fun f => if (f [0x4B, 1]).isSome then 1 else 2, dec := fun _ => .ok }
+    let ops : List (TyOp (List UInt8) (List UInt8)) := [.set [1] [7], .commit, .del [1], .commit, .reopen, .get [1]]
+    RoundTrip ic ∧ LawfulSame (fun a b : Nat => a == b) ∧
+    dropFailed { c with dec := cd.dec } ic (fun a b => a == b) ISt.init (ops.map (encOp cd))
+      = [.set (some [0x4B, 1]) (some [0x56, 7]), .del (some [0x4B, 1]), .commit, .reopen, .get (some [0x4B, 1])] := by
+  refine ⟨?_, ?_, by decide⟩
+  · intro r b h
+    simp only at h
+    split at h
+    · cases h
+    · cases h; simp
+  · intro a b; simp
 
 end Typed
 
